@@ -28,6 +28,7 @@ def hsum(a, b=0, c=0):
     return a + b + c
 
 
+DECOYS = ["scale", "np", "g1", "a", "df", "lo", "I", "hsum", "b"]
 EXTRA_NUM = ["hsum(x, b=z)", "hsum(x, c=np.abs(z))", "`my var`", "np.abs(`my var`)", "I(x * `my var`)", "hsum(z, hsum(x, p))"]
 
 
@@ -37,6 +38,10 @@ def case_strategy(draw):
     spec = draw(rich.frame_strategy(min_rows=8, max_rows=24, with_index=True, extra_unused=True))
     n = frames.nrows(spec)
     spec["cols"].append({"name": "my var", "kind": "float", "values": [round(float(v), 6) for v in frames.weyl(n, 4, 3)]})
+    # unused columns named like things a formula mentions without using them as variables: a callee, a module, a level,
+    # a string literal, a keyword, a built-in
+    for j, decoy in enumerate(DECOYS):
+        spec["cols"].append({"name": decoy, "kind": "float", "values": [float((i * (j + 2)) % 5) for i in range(n)]})
     if action == "pass":
         d = draw(rich.design(num_pool=tuple(rich.NUM_POINTWISE + EXTRA_NUM), cat_pool=tuple(rich.CAT_PLAIN), response=draw(st.sampled_from(["y", "np.abs(y)"]))))
     else:
